@@ -495,7 +495,7 @@ func TestVerifC03(t *testing.T) {
 		}
 	}
 
-	run.Cases(run.N(1000, 150000), func(c *vlib.Case) {
+	run.Cases(run.N(4000, 150000), func(c *vlib.Case) {
 		r := c.R.Fork(0xC03)
 		mode := "normal"
 		switch k := r.Intn(20); {
